@@ -178,6 +178,23 @@ func (x *Exec) libCall(fr *Frame, st *State, key string, callee *ssa.Function, a
 				}
 			}
 		}
+	case "container/heap.Push", "container/heap.Pop", "container/heap.Remove", "container/heap.Fix", "container/heap.Init":
+		// coarse frame model: the operation rearranges the heap's slice (through the
+		// concrete type's Swap/Push/Pop methods) and may update fields of its elements;
+		// nothing else changes, the result is unconstrained
+		if ms, ok := heapOpMods(x.curCall); ok {
+			// the heap's own slice header lives wherever the pointer argument points
+			mi := x.curCall.Args[0].(*ssa.MakeInterface)
+			hp := x.value(fr, mi.X)
+			hpl := x.placeOf(hp)
+			nh := x.freshOfType(st, hpl.Type(), "heaphdr")
+			x.storePlace(st, hpl, nh.S)
+			for _, m := range ms[1:] {
+				x.havocKeyCall(st, m.key, m.t)
+			}
+			x.trust("container/heap operations are modelled as a frame only: they may change the heap's own slice, its elements and the element objects' fields; nothing else (results unconstrained)")
+			return x.freshOfType(st, rt, "heapop"), true
+		}
 	case "hash/crc32.ChecksumIEEE":
 		// a function of the byte content; when the argument is []byte(s) for a string s it is
 		// the same uninterpreted function of s at every call site (collisions are possible)
@@ -565,6 +582,10 @@ func (x *Exec) libMods(key string, cc *ssa.CallCommon) ([]modTarget, bool) {
 		return []modTarget{{key: heapKeySlice(et), t: et}}, true
 	case "hash/crc32.ChecksumIEEE":
 		return nil, true
+	case "container/heap.Push", "container/heap.Pop", "container/heap.Remove", "container/heap.Fix", "container/heap.Init":
+		if ms, ok := heapOpMods(cc); ok {
+			return ms, true
+		}
 	case "sort.Slice", "sort.SliceStable":
 		if mi, ok := cc.Args[0].(*ssa.MakeInterface); ok {
 			if sl, ok := mi.X.Type().Underlying().(*types.Slice); ok {
@@ -573,4 +594,31 @@ func (x *Exec) libMods(key string, cc *ssa.CallCommon) ([]modTarget, bool) {
 		}
 	}
 	return nil, false
+}
+
+// heapOpMods: heap keys a container/heap operation may write, from the static type of
+// the heap argument (an interface made from *NamedSlice).
+func heapOpMods(cc *ssa.CallCommon) ([]modTarget, bool) {
+	if cc == nil || len(cc.Args) == 0 {
+		return nil, false
+	}
+	mi, ok := cc.Args[0].(*ssa.MakeInterface)
+	if !ok {
+		return nil, false
+	}
+	pt, ok := mi.X.Type().Underlying().(*types.Pointer)
+	if !ok {
+		return nil, false
+	}
+	sl, ok := pt.Elem().Underlying().(*types.Slice)
+	if !ok {
+		return nil, false
+	}
+	hk0, ht0, _ := storeKey(mi.X)
+	ms := []modTarget{{key: hk0, t: ht0}, {key: heapKeySlice(sl.Elem()), t: sl.Elem()}}
+	if ept, ok := sl.Elem().Underlying().(*types.Pointer); ok {
+		hk, ht := heapKeyForObj(ept.Elem())
+		ms = append(ms, modTarget{key: hk, t: ht})
+	}
+	return ms, true
 }
